@@ -108,6 +108,23 @@ def worker_init():
     specials = ['１２', '３．５', '％', '，', '（', 'Ｋ'] + case_expanding_code_points() + [c + '5' for c in extra[:8]] + ['ß', 'ẞ', 'é', '-', ',', '.', '/', ':']
     S['specials'] = specials
     S['pool'], S['entities'] = {}, {}
+    S['unit_chains'] = {}
+    for cul in S['cultures']:
+        if ('NumberWithUnit', 'CurrencyModel') not in S['models'][cul]:
+            continue
+        m = registry.get_model('NumberWithUnit', 'CurrencyModel', cul)
+        pre, suf = set(), []
+        for item in m.extractor_parser:
+            cfg = item.extractor.config
+            for sp in (getattr(cfg, 'prefix_list', None) or {}).values():
+                pre.update(x for x in sp.split('|') if x.strip())
+            for sp in (getattr(cfg, 'suffix_list', None) or {}).values():
+                suf.extend(x for x in sp.split('|') if x.strip())
+        both = sorted({x for x in suf if x in pre}, key=lambda x: (len(x), x))
+        amb = both[:3] + [x for x in both if len(x) == 3][:3] + both[-2:]
+        amb = list(dict.fromkeys(amb))
+        tails = [x for x in dict.fromkeys(suf) if x.isalpha() and x not in pre][:3]
+        S['unit_chains'][cul] = (amb, tails)
     for cul in S['cultures']:
         toks = collections.Counter()
         for t, n in ent_texts[cul].items():
@@ -144,7 +161,8 @@ def calls(cul, q, ref):
 def build(ch):
     """-> (source label, culture, query, reference)"""
     S.pop('only', None)
-    part = ch.pick('part', ('specs', 'tokens-k2', 'tokens-k3', 'entity-pairs', 'entity-triples', 'modifier-stacks', 'normaliser'))
+    part = ch.pick('part', ('specs', 'tokens-k2', 'tokens-k3', 'entity-pairs', 'entity-triples', 'modifier-stacks', 'unit-chains',
+                            'normaliser'))
     if part == 'normaliser':
         return part, None, None, None
     cul = ch.pick('culture', S['cultures'])
@@ -167,6 +185,20 @@ def build(ch):
             toks.append(ch.pick('t3', pool))
         joiner = ch.pick('joiner', (' ', ''))
         return part, cul, joiner.join(toks), registry.REF
+    if part == 'unit-chains':
+        # amounts written back to back, built from the run-time currency tables: a unit spelling that the tables list both
+        # as prefix and as suffix ("$", "us$": it can belong to the number before or after it), then a second amount
+        amb, tails = S['unit_chains'].get(cul, ([], []))
+        if not amb:
+            ch.prune()
+        u1 = ch.pick('ambifix_unit', amb)
+        ch.shard()
+        shape = ch.pick('shape', ('N u M t', 'N u M', 'u N u M', 'N u, M t', 'N t M u'))
+        t = ch.pick('tail_unit', tails)
+        n, m = ch.pick('amounts', (('15', '50'), ('3', '2.5')))
+        q = {'N u M t': '%s %s %s %s' % (n, u1, m, t), 'N u M': '%s %s %s' % (n, u1, m), 'u N u M': '%s %s %s %s' % (u1, n, u1, m),
+             'N u, M t': '%s %s, %s %s' % (n, u1, m, t), 'N t M u': '%s %s %s %s' % (n, t, m, u1)}[shape]
+        return part, cul, q, registry.REF
     if part == 'modifier-stacks':
         # one or two modifier words (the first words of spec entities that resolve with a Mod: before/after/since/around ...)
         # stacked in front of an entity expression, alone or after another entity
